@@ -3,12 +3,16 @@
 spec/NtsCookies.tla (property section: SingleUse, SentLeavesPool, FieldCount,
 PlaceholderType, ReqFits, NoShrink, PoolCap, StaysFull, RespFits, RespCount, Answered,
 Fresh, FreshCookiesOpen) is
- (1) decided by TLC exhaustively on the repaired design (NtsCookies_exh/_deep) and on
+ (1) decided by TLC exhaustively on the repaired design (NtsCookies_exh/_deep: losses x
+     clock jumps x foreign requests under every key the provider holds; NtsCookies_exhnet/
+     _deepnet: losses x clock jumps x earlier replies of the server handed to the waiting
+     client by the network - duplicates, late replies of timed-out exchanges, replays) and on
      the pinned code's constants (NtsCookies_faithful: every clause the pinned constants
      can satisfy; NtsCookies_predict: the shortest history into the client's panic);
  (2) used by TLC to generate loss / key-rotation / foreign-request schedules
      (spec/mc/NtsCookiesGen.tla: -simulate with RandomElement, plus all short schedules
-     breadth-first) which harness/c11 applies to the real IPClient + NTS-KE server + NTP
+     breadth-first; each exchange may have an earlier reply delivered before / instead of /
+     after the genuine one) which harness/c11 applies to the real IPClient + NTS-KE server + NTP
      server through a recording UDP proxy (live, in-process, loopback), next to a
      function-level pass over every pool level and every reply size;
  (3) used by spec/trace/NtsCookiesTrace.tla to validate every recorded event
@@ -154,10 +158,16 @@ def run(ctx):
     bg = ThreadPoolExecutor(max_workers=1)
 
     def design():
-        r = ctx.tlc("NtsCookiesMC", "NtsCookies_exh.cfg" if q else "NtsCookies_deep.cfg", timeout=300 if q else 1500)
-        ctx.log("TLC repaired design (%s): %d distinct states, %d generated, %.0fs" %
-                (r["cfg"], r["distinct"], r["generated"], r["wall_s"]))
-        rf = ctx.tlc("NtsCookiesMC", "NtsCookies_faithful.cfg", timeout=300, tag="faithful")
+        # (at most 8 TLC workers for the design-level runs together)
+        plan = ((("NtsCookies_exh.cfg", 4, None), ("NtsCookies_exhnet.cfg", 2, None), ("NtsCookies_faithful.cfg", 2, "faithful"))
+                if q else
+                (("NtsCookies_deep.cfg", 5, None), ("NtsCookies_deepnet.cfg", 2, None), ("NtsCookies_faithful.cfg", 1, "faithful")))
+        with ThreadPoolExecutor(max_workers=3) as dp:
+            rs = list(dp.map(lambda c: ctx.tlc("NtsCookiesMC", c[0], workers=c[1], timeout=300 if q else 1500, tag=c[2]), plan))
+        for r in rs[:2]:
+            ctx.log("TLC repaired design (%s): %d distinct states, %d generated, %.0fs" %
+                    (r["cfg"], r["distinct"], r["generated"], r["wall_s"]))
+        rf = rs[2]
         pred = _emitted_any(rf["out"], "PREDICT")
         pred = pred[0] if pred else {}
         ctx.log("TLC pinned constants: %d distinct states; predicted: request does not fit at pool levels %s "
@@ -183,12 +193,35 @@ def run(ctx):
     gx = ctx.tlc("NtsCookiesGen", "NtsCookies_genexh.cfg" if q else "NtsCookies_genexhdeep.cfg", workers=1,
                  timeout=600, tag="genexh")
     behx = ctx.emitted(gx["out"])
+    if not q:      # thorough: all schedules of 4 exchanges (plain network) and of 3 exchanges (with earlier replies)
+        gx3 = ctx.tlc("NtsCookiesGen", "NtsCookies_genexh.cfg", workers=1, timeout=600, tag="genexh3")
+        behx += ctx.emitted(gx3["out"])
     if len(beh) < num // 2 or len(behx) < 100:
         raise vlib.Inconclusive("generators produced only %d + %d schedules" % (len(beh), len(behx)))
     biases = collections.Counter(b["bias"] for b in beh)
     if not all(biases.get(k) for k in range(6)):
         raise vlib.Inconclusive("schedule generator did not produce every loss bias: %s" % dict(biases))
     cases = beh + behx
+    # vacuity guards on the specification's side: how often the generated behaviours exercise
+    # the network's memory and associations that outlive key rotations
+    gstat = collections.Counter()
+    for b in cases:
+        gstat.update(b.pop("stat"))
+    gstat.pop("had1", None)
+    gstat["late"] = gstat["same"] - gstat["dup"]
+    lacking = [k for k in ("same", "before", "dup", "late", "other", "second", "stray", "oldserve", "span1",
+                           "span2", "oldprobe") if not gstat[k]]
+    if lacking:
+        raise vlib.Inconclusive("generated schedules never exercise: %s (%s)" % (lacking, dict(gstat)))
+    ctx.notes.append(
+        "network dimension (spec side, %d generated behaviours): %d deliveries of an earlier reply of the current "
+        "association to the waiting client (%d of them before a genuine reply that was then delivered; %d duplicates "
+        "of a reply the client had received, %d late replies of exchanges that had timed out), %d of a reply of an "
+        "earlier association, %d deliveries that spent the second read of the receive loop, %d after the call had "
+        "returned; rotations: %d requests served under a cookie of an older key (%d one rotation, %d two or more "
+        "rotations after the key exchange with a request in between), %d foreign requests under an older key"
+        % (len(cases), gstat["same"], gstat["before"], gstat["dup"], gstat["late"], gstat["other"], gstat["second"],
+           gstat["stray"], gstat["oldserve"], gstat["span1"], gstat["span2"], gstat["oldprobe"]))
     cp = ctx.path("cases.ndjson")
     vlib.write_ndjson(cp, cases)
     ctx.log("schedules: %d random walks (biases %s) + %d exhaustive short ones" %
@@ -223,8 +256,21 @@ def run(ctx):
     scion_cap = any(e["n"] == 8 and e["u"] == 200 and e["ans"] for e in scion)
     capped_by_uid = sum(1 for e in events if e["ev"] == "probe" and e["ans"] and not e["bad"] and
                         e["n"] <= 8 and len(e["cookies"]) < e["n"])
+    stale_ok = 0      # exchanges that succeeded although an earlier reply was delivered first
+    for b in behs:
+        st = False
+        for e in b:
+            if e["ev"] == "req":
+                st = False
+            elif e["ev"] == "stale":
+                st = True
+            elif e["ev"] == "done" and e["ok"] and st:
+                stale_ok += 1
+    oldkey_probes = sum(1 for e in events if e["ev"] == "probe" and e["ans"] and e["kb"] > 0 and e["ck"] != e["prov"]["cur"])
     need = dict(req=cnt["req"], rep=cnt["rep"], losereq=cnt["losereq"], loseresp=cnt["loseresp"],
                 norep=cnt["norep"], tick=cnt["tick"], rekey=cnt["rekey"], probe=cnt["probe"],
+                stale=cnt["stale"], stray=cnt["stray"], exchanges_ok_after_stale=stale_ok,
+                probes_under_older_key=oldkey_probes,
                 rotated_replies=rotated, requests_under_retired_key=retired)
     ctx.log("coverage: %s; live pool levels %s, function-level pool levels %s, behaviours with re-keying %d, "
             "panics %d, probe sizes %s x unique-id lengths %s (%d replies capped because of the identifier); "
@@ -308,7 +354,7 @@ def run(ctx):
 
     exchanges = cnt["req"] + cnt["panic"] + cnt["nosend"] + cnt["probe"]
     def outcome(i, evs):
-        for e in evs[i + 1:i + 4]:
+        for e in evs[i + 1:i + 8]:
             if e["ev"] in ("losereq", "loseresp", "norep"):
                 return e["ev"]
             if e["ev"] == "done":
@@ -318,17 +364,19 @@ def run(ctx):
     for b in behs:
         for i, e in enumerate(b):
             if e["ev"] == "req":
-                kinds.add((e["p"], e["fn"], outcome(i, b), e["kv"], e["cookie"]["key"]))
+                kinds.add((e["p"], e["fn"], outcome(i, b), e["kv"], e["cookie"]["key"],
+                           sum(1 for x in b[i + 1:i + 6] if x["ev"] == "stale")))
             elif e["ev"] == "panic":
                 kinds.add((e["p"], e["fn"], "panic"))
             elif e["ev"] == "probe":
-                kinds.add(("probe", e["tr"], e["n"], e["u"], e["phtype"], e["prov"]["cur"], e["bad"]))
+                kinds.add(("probe", e["tr"], e["n"], e["u"], e["phtype"], e["prov"]["cur"], e["bad"], e["ck"], e["kv"]))
     sample = next((b for b in behs if any(e["ev"] == "loseresp" for e in b)), behs[0])
     ctx.cov.update(
         evaluations=exchanges, distinct_nontrivial=len(kinds),
         rule="exchanges of the real IPClient/NTS-KE/NTP server through the recording proxy under TLC-generated "
-             "schedules (random walks with loss bias 0..5, clock jumps of 12h..3d, foreign requests with 1..12 "
-             "fields and unique identifiers of 32..320 bytes; all schedules of 3-4 exchanges) plus every pool level through NewRequestPacket/EncodePacket "
+             "schedules (random walks with loss bias 0..5, clock jumps of 12h..3d, earlier replies of the server "
+             "delivered to the waiting client before / instead of / after the genuine one, foreign requests with 1..12 "
+             "fields, unique identifiers of 32..320 bytes and cookies under any key the provider holds; all schedules of 3-4 exchanges) plus every pool level through NewRequestPacket/EncodePacket "
              "and every reply size 1..12 x unique-identifier length {32,36,64,160,200,300,320} from the live IP listener and from the live SCION "
              "listener (SCION/UDP, empty path); distinct = distinct (pool level, live/function "
              "level, outcome, key of the cookie valid?, key id) resp. (listener, probe size, unique-id length, placeholder wire type, current "
@@ -338,8 +386,11 @@ def run(ctx):
         measured=dict(cookie_len=cfg["cookie_len"], max_packet_len=cfg["maxlen"]), predicted=pred,
         samples=[cfg] + sample[:12], exhaustive=False)
     ctx.assumptions += [
-        "the provider's clock is moved by shifting its keys' validity periods and generatedAt (reflect/unsafe on "
-        "ntske.Provider); the provider only compares time.Now() with these, so this is what the passing of time does to it",
+        "the provider's clock is moved by shifting every time.Time it holds (its keys' validity periods, generatedAt; "
+        "reflect/unsafe on ntske.Provider, under its lock); the provider only compares time.Now() with these, so this is "
+        "what the passing of time does to it",
+        "the network's memory is bounded (exhaustive runs: the reply of the previous 1-2 exchanges); the client's receive "
+        "loop is handed at most two extra datagrams per call",
         "datagrams are classified by the harness' own RFC 8915 field walker and AES-SIV (miscreant) calls, not by net/nts",
         "loopback, one client per server; losses are those of the schedule (a silent server is asked again before "
         "'no reply' is recorded)",
